@@ -179,7 +179,15 @@ def _call(args):
         return ("ok", fn(*a))
     except Inconclusive as e:
         return ("inc", str(e))
-    except Exception:
+    except Exception as e:
+        # a driver that dies (sanitizer report, abort, hang) inside a worker that has no finer attribution is still a
+        # *library* event: report it as a violation of the running check, not as a harness failure
+        if e.__class__.__name__ in ("DriverCrash", "DriverHang"):
+            sig = e.signature() if hasattr(e, "signature") else "hang/no-termination"
+            return ("ok", {"counters": {}, "viol": [("crash/%s" % sig, {"worker": getattr(fn, "__name__", "?"),
+                                                                      "op": (getattr(e, "line", None) or "")[:300]},
+                                                     {"stderr": getattr(e, "stderr", str(e))[-1500:]})],
+                           "samples": [], "distinct": 0, "sets": {}})
         return ("exc", traceback.format_exc())
 
 
